@@ -228,6 +228,9 @@ def prepass_rule(facts, rep, R5):
         if rv["k"] == "agg" and len(rv["fields"]) == 1 and rv["fields"][0].get("k", {}).get("val", {}).get("v") == 1:
             n += 1
             continue
+        if rv["k"] in ("use", "cast") and rv["a"].get("k", {}).get("val", {}).get("v") == 1:
+            n += 1          # a plain integer counter: the same initial literal step
+            continue
         src = rv["a"].get("m") or rv["a"].get("c") if rv["k"] in ("use", "cast") else None
         if src is not None and named_root(src["l"]) in guard_roots(bi):
             n += 1
